@@ -201,8 +201,14 @@ class ImplWorld:
 
     def mkworker(self, ctx, mode, swallow, hooks_start, holder, coro=True, hint=None):
         """`hint` = (request number, stars) for a map request with *empty* elements: the worker is then called without
-        any argument and learns the element's index from the iterator (which ran just before the call)"""
+        any argument and learns the element's index from the iterator (which ran just before the call).
+        `mode`: `r` returns at once, `x` raises at once, `g` gated = awaits one harness future, `g1` / `g2` / ... gated with
+        that many *further* suspension points (each on a fresh harness future; event `N` between two of them)"""
         W = self
+        awaits = 0
+        if mode[:1] == "g":
+            awaits = int(mode[1:] or 0)
+            mode = "g"
         if not coro:
             def worker(x, k=0, *, s=None):      # not a coroutine function
                 return None
@@ -232,6 +238,7 @@ class ImplWorld:
                 f = W.loop.create_future()
                 ctx.futs[tid] = f
                 resumed = False
+                left = awaits               # suspension points still to come after the current one
                 while True:
                     try:
                         await f
@@ -252,6 +259,14 @@ class ImplWorld:
                     except Boom:
                         ctx.ev.append(f"E{tid}")
                         raise
+                    if left > 0:
+                        # the awaited future completed normally and the worker has more to do: it goes on to its next
+                        # suspension point (a fresh future; `on i gate t` completes whichever future the task awaits now)
+                        left -= 1
+                        ctx.ev.append(f"N{tid}")
+                        f = W.loop.create_future()
+                        ctx.futs[tid] = f
+                        continue
                     ctx.ev.append(f"R{tid}")
                     return val
             finally:
